@@ -151,34 +151,56 @@ struct ParserBuilder
     void proc_edge_begin(const char* from, const char* to, bool control, const char* act) { rec(EV_EDGE_BEGIN, verif_id(from), verif_id(to), control, verif_id(act)); }
     void proc_edge_end(const char* from, const char* to) { rec(EV_EDGE_END, verif_id(from), verif_id(to), 0, 0); }
     void proc_location_init(const char* name) { rec(EV_INIT, verif_id(name), 0, 0, 0); }
-    void proc_location(const char* name, bool inv, bool er) { rec(EV_LOCATION, verif_id(name), inv, er, 0); if (g_builder_throws) verif_exc = 1; }
+    void proc_location(const char* name, bool inv, bool er) { rec(EV_LOCATION, verif_id(name), inv, er, g_tracker_path); if (g_builder_throws) verif_exc = 1; }
     void proc_location_commit(const char* name) { rec(EV_COMMIT, verif_id(name), 0, 0, 0); }
     void proc_location_urgent(const char* name) { rec(EV_URGENT, verif_id(name), 0, 0, 0); }
-    void proc_branchpoint(const char* name) { rec(EV_BRANCHPOINT, verif_id(name), 0, 0, 0); }
+    void proc_branchpoint(const char* name) { rec(EV_BRANCHPOINT, verif_id(name), 0, 0, g_tracker_path); }
     void handle_error(const TypeException&) { rec(EV_ERROR, 0, 0, 0, 0); }
     void handle_warning(const TypeException&) { rec(EV_WARNING, 0, 0, 0, 0); }
 };
 /* parse_XTA on a label text: recorded; its verdict (0 = parsed) is a function of the text, given by the script */
 static int g_parse_fails[1024 / 64];
-static int parse_XTA(const char* text, ParserBuilder*, bool, xta_part_t part, const std::string&)
+static int parse_XTA(const char* text, ParserBuilder*, bool, xta_part_t part, const std::string& xpath)
 {
     int t = verif_id(text);
-    rec(EV_PARSE, t, (int)part, 0, 0);
+    rec(EV_PARSE, t, (int)part, xpath.id, 0);
     return (t >= 50 && t < 60 && ((g_parse_fails[0] >> (t - 50)) & 1)) ? -1 : 0;
 }
 /* position tracker: no effect on the document */
-struct verif_tracker { void setPath(ParserBuilder*, const std::string&) {} void increment(ParserBuilder*, size_t) {} };
+static int g_tracker_path; /* identity of the XPath the builder's diagnostics are currently attributed to */
+struct verif_tracker { void setPath(ParserBuilder*, const std::string& p) { g_tracker_path = p.id; } void increment(ParserBuilder*, size_t) {} };
 static verif_tracker tracker;
-/* class Path: the stack of open elements (str() gives the XPath text: an identity) */
+/* class Path (real: a list of sibling vectors, one per open level).  Kept per level: the tag of the most recent sibling and how
+   many siblings in a row carry it (= the real count(level, tag) whenever same-tag siblings are contiguous, as the DTD has
+   them).  str(tag) is the identity of the XPath text the real function prints: the (tag, index) pairs from the root down
+   to the first level whose element is `tag`, or to the deepest non-empty level. */
+#define PATH_ID(id, t, c) ((id) * 53 + ((int)(t)) * 3 + (c))
 class Path
 {
 public:
-    tag_t st[12];
-    int n;
-    Path(): n(0) {}
-    void push(tag_t t) { __CPROVER_assert(n < 12, "stub: path depth"); st[n] = t; n++; }
-    tag_t pop() { __CPROVER_assert(n > 0, "stub: pop on a non-empty path"); n--; return st[n]; }
-    std::string str(tag_t = tag_t::NONE) const { std::string s; s.id = 900 + n; return s; }
+    int last[14], cnt[14];
+    int depth; /* number of levels, the deepest one possibly empty */
+    Path(): depth(1) { last[0] = -1; cnt[0] = 0; }
+    void reset() { depth = 1; last[0] = -1; cnt[0] = 0; }
+    void push(tag_t t)
+    {
+        __CPROVER_assert(depth < 13, "stub: path depth");
+        if (last[depth - 1] == (int)t) cnt[depth - 1]++; else { last[depth - 1] = (int)t; cnt[depth - 1] = 1; }
+        last[depth] = -1; cnt[depth] = 0;
+        depth++;
+    }
+    tag_t pop() { __CPROVER_assert(depth > 1, "stub: pop on a non-empty path"); depth--; return (tag_t)last[depth - 1]; }
+    std::string str(tag_t tag = tag_t::NONE) const
+    {
+        int id = 1;
+        bool stop = false;
+        for (int i = 0; i < 13; i++) {
+            if (!stop && i < depth && last[i] >= 0) { id = PATH_ID(id, last[i], cnt[i]); if (last[i] == (int)tag) stop = true; }
+            else stop = true;
+        }
+        std::string s; s.id = 2000 + id;
+        return s;
+    }
 };
 /* std::map<std::string, std::string> names */
 struct verif_names_it { int k; std::string second; bool operator!=(const verif_names_it& o) const { return k != o.k; } };
@@ -268,7 +290,7 @@ void wx_start(int n, int first_tag, int builder_throws, int parse_fails)
 {
     nnode = n; ncur = 0; verif_exc = 0; verif_nev = 0; verif_ncell_dyn = 0; g_builder_throws = builder_throws; g_parse_fails[0] = parse_fails;
     R.parser = &PB; R.newxta = true;
-    R.path.n = 0; R.path.push(tag_t::NTA); R.path.push(tag_t::TEMPLATE); R.path.push((tag_t)first_tag);
+    R.path.reset(); g_tracker_path = 0; R.path.push(tag_t::NTA); R.path.push(tag_t::TEMPLATE); R.path.push((tag_t)first_tag);
     /* R.names starts empty: static storage is zero-initialised and a harness runs once */
 }
 void wx_name(int id, int name) { names_has[id] = true; names_val[id] = name; }
@@ -283,5 +305,5 @@ int wx_call(int which)
     }
 }
 int wx_cursor(void) { return ncur; }
-int wx_path_depth(void) { return R.path.n; }
+int wx_path_depth(void) { return R.path.depth; }
 }
